@@ -2,7 +2,7 @@
    Only theorem statements closed by `exact`, each followed by Print Assumptions.
    All theorems quantify over ALL integers (Z): every short/long boundary is covered. *)
 From Coq Require Import ZArith Bool List SpecFloat.
-From C15 Require Import Model Statement Proofs Proofs2 Proofs3 ProofsFixed ProofsErr FloatModel FloatProofs.
+From C15 Require Import Model Statement Proofs Proofs2 Proofs3 ProofsFixed ProofsErr ProofsExt FloatModel FloatProofs.
 From Gen Require Import C15ErrKinds.
 Open Scope Z_scope.
 
@@ -201,6 +201,58 @@ Theorem declared_error_kinds_sound :
 Proof. exact (conj err_table_sound src_magic_matches). Qed.
 Print Assumptions declared_error_kinds_sound.
 
+(* ------------------------------------------------------------------ divmod law, width conversions, round trips *)
+(* `a // b` and `a % b` as compiled form a consistent pair: a = b*q + r with the remainder taking the sign of the divisor *)
+Theorem divmod_pair_correct : forall a b, b <> 0 ->
+  exists q r, tagged_floordiv (tag a) (tag b) = Ok (tag q) /\ tagged_remainder (tag a) (tag b) = Ok (tag r) /\
+              a = b * q + r /\ (0 <= r < b \/ b < r <= 0).
+Proof. exact divmod_pair_tagged. Qed.
+Print Assumptions divmod_pair_correct.
+
+Theorem divmod_by_zero_raises : forall a,
+  tagged_floordiv (tag a) (tag 0) = Raise ZeroDivisionError /\ tagged_remainder (tag a) (tag 0) = Raise ZeroDivisionError.
+Proof. exact divmod_zero_tagged. Qed.
+Print Assumptions divmod_by_zero_raises.
+
+Theorem divmod_pair_correct_native : forall t x y,
+  fw_signed t = true -> in_range t x = true -> in_range t y = true -> y <> 0 -> in_range t (x / y) = true ->
+  exists q r, fw_op t FDiv x y = FOk q /\ fw_op t FMod x y = FOk r /\ x = y * q + r /\ (0 <= r < y \/ y < r <= 0).
+Proof. exact divmod_pair_fixed. Qed.
+Print Assumptions divmod_pair_correct_native.
+
+Theorem divmod_pair_correct_u8 : forall x y,
+  in_range U8 x = true -> in_range U8 y = true -> y <> 0 ->
+  exists q r, fw_op U8 FDiv x y = FOk q /\ fw_op U8 FMod x y = FOk r /\ x = y * q + r /\ 0 <= r < y.
+Proof. exact divmod_pair_u8. Qed.
+Print Assumptions divmod_pair_correct_u8.
+
+(* MIN // -1 raises OverflowError through the error value, decoded as an error under the declared error kind *)
+Theorem native_divide_overflow_rule : forall t, fw_signed t = true ->
+  fw_op t FDiv (fw_lower t) (-1) = FRaise OverflowError /\
+  c_return t (FRaise OverflowError) = Some (fw_magic t, true) /\
+  caller_sees ErrMagicOverlapping t (fw_magic t, true) = SError.
+Proof. exact divide_overflow_rule. Qed.
+Print Assumptions native_divide_overflow_rule.
+
+(* i64/i32/i16/u8 explicit conversions between widths: in range, congruent modulo 2^bits, identity when the value fits *)
+Theorem width_conversion_correct : forall t x,
+  in_range t (fw_wrap t x) = true /\ (fw_wrap t x - x) mod fw_modulus t = 0 /\ (in_range t x = true -> fw_wrap t x = x).
+Proof. exact ProofsExt.width_conversion_correct. Qed.
+Print Assumptions width_conversion_correct.
+
+Theorem int_native_int_roundtrip : forall t a,
+  (in_range t a = true -> exists v, coerce_int_to_fw t (tag a) = Ok v /\ coerce_fw_to_int t v = tag a) /\
+  (in_range t a = false -> coerce_int_to_fw t (tag a) = Raise ValueError).
+Proof. exact int_native_roundtrip. Qed.
+Print Assumptions int_native_int_roundtrip.
+
+(* int.bit_length: fast path via count-leading-zeros on |value|, boxed path via _PyLong_NumBits; the hypothesis only excludes
+   integers of more than 2^31 bits (the C code keeps the count in an `int`) *)
+Theorem bit_length_correct : forall a,
+  Z.log2 (Z.abs a) < 2147483647 -> tagged_bit_length (tag a) = tag (py_bit_length a).
+Proof. exact ProofsExt.bit_length_correct. Qed.
+Print Assumptions bit_length_correct.
+
 (* ------------------------------------------------------------------ floats (binary64 = SpecFloat prec 53 emax 1024) *)
 (* float // float and float / float: the C code is CPython's algorithm, ZeroDivisionError iff the divisor is +-0 *)
 Theorem float_floordiv_correct : forall x y, c_floordiv x y = py_float_floor_div x y.
@@ -262,6 +314,13 @@ Proof. exact int_float_cmp_refuted. Qed.
 Print Assumptions int_float_comparison_refuted.
 
 (* hypotheses are satisfiable / boundary witnesses *)
+Example ex_divmod_hyp : in_range I16 (-32768) = true /\ in_range I16 7 = true /\ in_range I16 (-32768 / 7) = true /\
+  fw_op I16 FDiv (-32768) 7 = FOk (-4682) /\ fw_op I16 FMod (-32768) 7 = FOk 6.
+Proof. vm_compute. repeat split; reflexivity. Qed.
+Example ex_bit_length : Z.log2 (Z.abs (- B62)) < 2147483647 /\ tagged_bit_length (tag (- B62)) = tag 63 /\ tagged_bit_length (tag (B64 + 1)) = tag 65.
+Proof. vm_compute. repeat split; reflexivity. Qed.
+Example ex_width : fw_wrap U8 300 = 44 /\ fw_wrap I16 40000 = -25536 /\ in_range I32 40000 = true.
+Proof. vm_compute. repeat split; reflexivity. Qed.
 Example ex_float_valid : valid_binary fprec femax f_2p62 = true /\ c_from_float f_2p62 = Ok (Long B62).
 Proof. vm_compute. split; reflexivity. Qed.
 Example ex_float_mod : c_float_mod (fopp (of_Z 15)) (of_Z 4) = FVal (of_Z 1) /\ c_float_mod (of_Z 1) fzero = FErr ZeroDivisionError.
